@@ -150,11 +150,13 @@ void harness(void)
         for (i = 0; i < 24; i++) buf[i] = 0x4D;
         H4V_ASSERT(DFANgetlabel("t.hdf", 1000, 1, buf, 16) != FAIL && strcmp(buf, "label1") == 0, "C15.S1.dfan.label1: the first object's label changed when another object was labelled");
         H4V_ASSERT(DFANgetlabel("t.hdf", O2TAG, O2REF, buf, 16) != FAIL && strcmp(buf, "lab2") == 0, "C15.S1.dfan.label2: the second object's label differs");
+#if MODE == 4 /* (mode 6 stops here to stay inside the quick-tier budget) */
         f = Hopen("t.hdf", DFACC_READ, 0);
         an = ANstart(f);
         H4V_ASSERT(f != FAIL && an != FAIL, "C15.S1.an.start2");
         H4V_ASSERT(ANnumann(an, AN_DATA_LABEL, 1000, 1) == 1 && ANnumann(an, AN_DATA_LABEL, O2TAG, O2REF) == 1, "C15.S1.an.numann2: labels written by DFAN for two objects are not both listed by AN");
         H4V_ASSERT(ANend(an) == SUCCEED && Hclose(f) == SUCCEED, "C15.S1.an.close2");
+#endif
     }
 #endif
     (void)f; (void)gr; (void)ri; (void)dims; (void)nc; (void)nt; (void)il; (void)na; (void)nm; (void)x; (void)y; (void)c; (void)pout; (void)st; (void)ed;
